@@ -145,10 +145,16 @@ def printStr (name : Nat → String) : BDD → String
     | none, some b => b
     | none, none => ""   -- low = high = 0: not a reduced node (Python: IndexError)
 
+/-- `lit & e` as Python parses the unparenthesised text: `&` associates to the left, so the literal goes to the far
+    left of the conjunction chain `e` -/
+def prependAnd (lit : BExp) : BExp → BExp
+  | .band x y => .band (prependAnd lit x) y
+  | e => .band lit e
+
 def expPart (lit : BExp) (c : BDD) (ce : BExp) : Option BExp :=
   match c with
   | leaf b => if b then some lit else none
-  | _ => some (.band lit ce)
+  | _ => some (if printsAsOr c then .band lit ce else prependAnd lit ce)
 
 /-- the expression the printed string denotes under Python's precedences (`~` > `&` > `|`) -/
 def printExp : BDD → BExp
